@@ -67,7 +67,7 @@ Definition ok (cs : case) : bool :=
   | CApply base m res => opt_eqb bytes_eqb (apply_parts base m) res
   | CNative pre l out =>
     bytes_eqb (format_native pre l) out
-    && list_eqb N.eqb (scan_boundaries pre true out) (al_parts l)
+    && list_eqb N.eqb (scan_lines pre out) (al_parts l)
   | CFile file lines => list_eqb bytes_eqb (split_lines [] file) lines
   end.
 
